@@ -1,4 +1,10 @@
 // C07: the "other object" whose call_other is the ORIGIN_CALL_OTHER caller; the target may be an object, an array of
 // objects / file names, or a file name (f_call_other's target kinds)
 void create () { seteuid (getuid ()); }
-mixed do_call (mixed target, string fn) { return call_other (target, fn); }
+// with arguments the ARRAY form of the function argument is used: call_other (target, ({ fn, a1, a2, ... }))
+mixed do_call (mixed target, string fn, mixed *args...) {
+  if (sizeof (args)) return call_other (target, ({ fn }) + args);
+  return call_other (target, fn);
+}
+// function pointers made by the generated objects and evaluated HERE, by another object
+mixed do_eval (function f) { return evaluate (f, 21, 22, 23); }
